@@ -90,7 +90,7 @@ NAV         = ('ss', 'se', 'sv', 'tl', 'rf', 'ro')
 DELS        = ('do', 'dm', 'dn')
 READ_OPS    = {'rd': ('read()', False, False), 'rb': ('read_block()', True, False),          # op: (text, block, mode override)
                'rdo': ('read({!r})', False, True), 'rbo': ('read_block({!r})', True, True)}
-READ_ALL    = {'ra': 'rd', 'rba': 'rb', 'rdoa': 'rdo', 'rboa': 'rbo'}                                       # macro: the read it repeats
+READ_ALL    = {'ra': 'rd', 'rba': 'rb', 'rdoa': 'rdo', 'rboa': 'rbo'}                        # macro: the read it repeats
 
 
 def wname(n):
